@@ -1,4 +1,4 @@
-from bisect import bisect
+from bisect import bisect, bisect_left, bisect_right
 from decimal import Decimal
 from enum import IntEnum
 from functools import total_ordering
@@ -356,10 +356,23 @@ class TimingEngine:
         Keep in mind that this situation is floating-point precise, so
         it's unlikely for the `event_tag` to ever make a difference.
         """
-        tagged_time = (time, event_tag)
-
-        # Same caveat as `time_at`
-        prior_state_index = max(0, bisect(self._tagged_times, tagged_time) - 1)
+        # Multiple states can share the same time (e.g. inside a warp) and
+        # their tags aren't sorted within that run, so only the times are
+        # binary searched: WARP selects the first state at exactly this time
+        # (if any), every other tag selects the last state at or before it.
+        # Same caveat as `time_at` for negative beats.
+        if event_tag == EventTag.WARP:
+            prior_state_index = bisect_left(self._tagged_times, (time,))
+            if (
+                prior_state_index == len(self._tagged_times)
+                or self._tagged_times[prior_state_index][0] != time
+            ):
+                prior_state_index -= 1
+        else:
+            prior_state_index = (
+                bisect_right(self._tagged_times, (time, len(EventTag))) - 1
+            )
+        prior_state_index = max(0, prior_state_index)
         prior_state: TimingState = self._state_machine[prior_state_index]
         prior_state_beat = prior_state.event.beat
 
